@@ -1,12 +1,13 @@
-"""C09 (CLI part) - pure functions: directory shapes, the engine-level fault injectors (SQL text), the
-PLANNING model that enumerates the faults reachable in an attempt, and the offline oracle.
+"""C09 (CLI part) - pure functions: directory shapes, the engine-level fault injectors (SQL text) and the
+offline oracle.
 
 Observation channel (independent of the code under test): two SQLite triggers installed by the monitor
 (python sqlite3) before every attempt write an ordered event log into the table `verif_ev`:
 
   X <id>                                 AFTER INSERT ON j                 (a migration statement took effect)
-  W <version> <applied> <old> <err> <f>  BEFORE INSERT ON atlas_schema_revisions (a revision write reached the
-                                         real table; <old> = stored `applied` of that version at that moment,
+  W <version> <applied> <old> <err> <f> <total>
+                                         BEFORE INSERT ON atlas_schema_revisions (a revision write reached the
+                                         real table; <applied>/<total> = the values being written; <old> = stored `applied` of that version at that moment,
                                          NULL when there is no row; <f> = 1 when this write is the injected
                                          failure: the trigger RAISE(FAIL)s, the row is not written, and - FAIL,
                                          not ABORT - the event row survives the failed statement)
@@ -16,8 +17,10 @@ INSERT trigger for every such statement, also when it ends up as an UPDATE, so o
 revision write. The k-th revision write of an attempt is made to fail; statement failures are produced by
 replacing a statement with an INSERT into a table that does not exist.
 
-The planning model below (`simulate`) is used ONLY to list the faults worth running (and to label them); the
-oracle (`judge`) never consults it: it reads the event log, the journal rows, the revision rows and exit codes."""
+Nothing in this file predicts WHERE the executor writes revisions: the number and position of revision writes
+is not part of C09. The monitor learns the writes of an attempt by running it once without a fault from the
+same start state and counting the W events, then fails the k-th one for every k; the oracle (`judge`) reads
+only observed things: the event log, the journal rows, the revision rows and exit codes."""
 import re
 
 MISSING = "verif_missing"
@@ -27,7 +30,7 @@ NOOP_TEXT = "No migration files to execute"
 SETUP_SQL = """
 CREATE TABLE j (id text);
 CREATE TABLE verif_ev (n INTEGER PRIMARY KEY AUTOINCREMENT, att integer, kind text, a text,
-                       applied integer, old_applied integer, err integer, fired integer);
+                       applied integer, old_applied integer, err integer, fired integer, total integer);
 """
 
 
@@ -40,10 +43,10 @@ CREATE TRIGGER verif_x AFTER INSERT ON j BEGIN
   INSERT INTO verif_ev(att, kind, a) VALUES (%(att)d, 'X', NEW.id);
 END;
 CREATE TRIGGER verif_w BEFORE INSERT ON atlas_schema_revisions BEGIN
-  INSERT INTO verif_ev(att, kind, a, applied, old_applied, err, fired) VALUES (%(att)d, 'W', NEW.version, NEW.applied,
+  INSERT INTO verif_ev(att, kind, a, applied, old_applied, err, fired, total) VALUES (%(att)d, 'W', NEW.version, NEW.applied,
     (SELECT applied FROM atlas_schema_revisions WHERE version = NEW.version),
     NEW.error IS NOT NULL AND NEW.error <> '',
-    (SELECT count(*) FROM verif_ev WHERE att = %(att)d AND kind = 'W') + 1 = %(k)d);
+    (SELECT count(*) FROM verif_ev WHERE att = %(att)d AND kind = 'W') + 1 = %(k)d, NEW.total);
   SELECT RAISE(FAIL, '%(mark)s')
    WHERE (SELECT count(*) FROM verif_ev WHERE att = %(att)d AND kind = 'W') = %(k)d;
 END;
@@ -105,7 +108,7 @@ def shape_sig(shape):
 
 
 # ------------------------------------------------------------------------------------------------
-# faults and the planning model
+# faults
 # ------------------------------------------------------------------------------------------------
 def fault_name(f):
     if not f:
@@ -124,60 +127,6 @@ def case_name(case):
                         (" n=" + ",".join(map(str, n))) if any(n) else "")
 
 
-def simulate(shape, rec, fault, count=0):
-    """Planning model of ONE attempt, written from the property statement. rec[f] = statements of file f
-    recorded so far (None: no revision row). Returns (new rec, writes, execs, hit):
-    writes = [(class, file, stmt|None)] in order (class: start | stmt | final | deferred), execs = ids executed,
-    hit = class of the failed write / 'x' for a pure statement failure / None if the fault is not reached."""
-    rec = list(rec)
-    fault = fault or {}
-    writes, execs = [], []
-    pend = [f for f in range(len(shape)) if rec[f] is None or rec[f] < shape[f]]
-    if pend:  # linear history: everything from the first incomplete file on
-        pend = list(range(pend[0], len(shape)))
-    if count:
-        pend = pend[:count]
-    for f in pend:
-        a = rec[f] or 0
-        writes.append(("start", f, None))
-        if fault.get("w") == len(writes):
-            return rec, writes, execs, "start"
-        rec[f] = a
-        for s in range(a, shape[f]):
-            if fault.get("x") == sid(f, s):
-                writes.append(("deferred", f, s))
-                if fault.get("w") == len(writes):
-                    return rec, writes, execs, "x+deferred"
-                return rec, writes, execs, "x"
-            execs.append(sid(f, s))
-            writes.append(("stmt", f, s))
-            if fault.get("w") == len(writes):
-                return rec, writes, execs, "stmt"
-            rec[f] = s + 1
-        writes.append(("final", f, None))
-        if fault.get("w") == len(writes):
-            return rec, writes, execs, "final"
-    return rec, writes, execs, None
-
-
-def faults_from(shape, rec, count=0, combos=True):
-    """Every single fault reachable in an attempt that starts from `rec`: each statement that would run, each
-    revision write that would be issued, and (combos) each statement failure whose deferred error-recording
-    write fails as well."""
-    _, writes, execs, _ = simulate(shape, rec, None, count)
-    out = [{"x": x} for x in execs]
-    out += [{"w": k} for k in range(1, len(writes) + 1)]
-    if combos:
-        for x in execs:
-            _, w2, _, _ = simulate(shape, rec, {"x": x}, count)
-            out.append({"x": x, "w": len(w2)})
-    return out
-
-
-def fresh(shape):
-    return [None] * len(shape)
-
-
 # ------------------------------------------------------------------------------------------------
 # oracle
 # ------------------------------------------------------------------------------------------------
@@ -186,6 +135,7 @@ class Verdict:
         self.violations = []   # (key, what)
         self.inconclusive = []
         self.classes = []      # labels for the evidence counters
+        self.positions = []    # first | mid | last: row content of every write fault that fired (validity guard)
         self.legit_repeats = 0
 
     def v(self, key, what):
@@ -201,7 +151,7 @@ def judge(case, attempts):
     """attempts: one record per CLI run of the case, in order: the faulted attempts, the clean run, the no-op
     run. Each: {kind: fault|clean|noop, fault, rc, out (tail of stdout+stderr), x_reached (the output names
     the missing table: the failing statement was printed, i.e. about to be executed, or its error reported),
-    events [(kind, a, applied, old, err, fired)], revs_before, revs_after (dump_db revisions), j_after (journal
+    events [(kind, a, applied, old, err, fired, total)], revs_before, revs_after (dump_db revisions), j_after (journal
     ids in rowid order)}."""
     vd = Verdict()
     shape = case["shape"]
@@ -260,8 +210,6 @@ def judge(case, attempts):
                 if i + 1 < len(evs) and evs[i + 1][0] == "W" and evs[i + 1][5]:
                     failed_bk[a] = failed_bk.get(a, 0) + 1
             else:
-                if at["kind"] == "noop" and attempts[ai - 1]["rc"] == 0:
-                    vd.v("noop-wrote", "%s: a run with nothing to do wrote revision %s" % (where, a))
                 if e[5]:
                     fired_at = i
                 elif (e[2] or 0) > ok_by_file.get(a, 0):
@@ -287,6 +235,8 @@ def judge(case, attempts):
             w_fired = fired_at is not None
             if fault.get("w") and w_fired:
                 ev = evs[fired_at]
+                # position class from the observed row content only: applied==0 / 0<applied<total / applied==total
+                vd.positions.append("first" if not ev[2] else "last" if ev[2] == ev[6] else "mid")
                 first_of_version = not any(e2[0] == "W" and e2[1] == ev[1] for e2 in evs[:fired_at])
                 vd.classes.append("write-fault:" + (("start-new" if ev[3] is None else "start-resume") if first_of_version else
                                                     "stmt" if evs[fired_at - 1][0] == "X" else "deferred" if ev[4] else "final"))
